@@ -90,7 +90,7 @@ def _recv(e, c, a):
         m = ch.q[ch.head]; ch.head += 1; return Ok(m)
     if ch.senders == 0: return Err(UNIT)
     raise Hang('recv() on an empty channel whose sender is still alive: blocks forever')
-@lmodel('Receiver::iter', 'Receiver::into_iter')
+@lmodel('Receiver::iter', 'Receiver::into_iter', '<Receiver as IntoIterator>::into_iter', '<&Receiver as IntoIterator>::into_iter')
 def _iter(e, c, a):
     r = unguard(a[0]); ch = r.ch
     def nxt(e_):
